@@ -152,6 +152,12 @@ func GenDevInfo(rt *rapid.T) *RDevInfo {
 	copy(d.Serial[:], GenBytes(rt, "serial", 6, 6))
 	copy(d.Mcast[:], GenBytes(rt, "mcast", 4, 4))
 	copy(d.MAC[:], GenBytes(rt, "mac", 6, 6))
+	switch rapid.IntRange(0, 9).Draw(rt, "mac-special") {
+	case 0: // a device without an Ethernet interface of its own reports zeros
+		d.MAC = [6]byte{}
+	case 1:
+		d.MAC = [6]byte{0xff, 0xff, 0xff, 0xff, 0xff, 0xff}
+	}
 	return d
 }
 
